@@ -27,7 +27,7 @@ def main():
     payload = lib.read_payload()
     tier, seed = payload.get('tier', 'quick'), int(payload.get('seed', 0))
     rnd = random.Random(seed)
-    n_cases = 60 if tier == 'thorough' else 16
+    n_cases = 300 if tier == 'thorough' else 16
     failures, samples, cases = [], [], 0
     for c in range(n_cases):
         n = rnd.choice([24, 32, 64]) * 1024
